@@ -10,6 +10,7 @@ const Enabled = true
 // Hooks is the set of callbacks the harness installs. Nil members are no-ops.
 type Hooks struct {
 	Yield    func(site string)
+	YieldL   func(site string, label any)
 	Spin     func(site string)
 	Note     func(event string)
 	Fault    func(site string) error
@@ -26,6 +27,16 @@ func Install(h *Hooks) { installed.Store(h) }
 func Yield(site string) {
 	if h := installed.Load(); h != nil && h.Yield != nil {
 		h.Yield(site)
+	}
+}
+
+func YieldL(site string, label any) {
+	if h := installed.Load(); h != nil {
+		if h.YieldL != nil {
+			h.YieldL(site, label)
+		} else if h.Yield != nil {
+			h.Yield(site)
+		}
 	}
 }
 
